@@ -37,12 +37,15 @@ def nextBlock (i : In) : List Act :=
             let acts : List Act := acts ++ [.finished]
             acts
           else
-            if ((i.atEnd = true) ∨ (((i.rangeTo ≠ (-(1 : Int))) ∧ (i.pos > i.rangeTo)))) then
-              let acts : List Act := acts ++ [.finished]
+            if (i.stopped = true) then
               acts
             else
-              let acts : List Act := acts ++ [.requeue]
-              acts
+              if ((i.atEnd = true) ∨ (((i.rangeTo ≠ (-(1 : Int))) ∧ (i.pos > i.rangeTo)))) then
+                let acts : List Act := acts ++ [.finished]
+                acts
+              else
+                let acts : List Act := acts ++ [.requeue]
+                acts
         else
           let acts : List Act := ([] : List Act) ++ [.write dataRead]
           if (i.writeFails dataRead = true) then
@@ -50,11 +53,14 @@ def nextBlock (i : In) : List Act :=
             let acts : List Act := acts ++ [.finished]
             acts
           else
-            if ((i.atEnd = true) ∨ (((i.rangeTo ≠ (-(1 : Int))) ∧ (i.pos > i.rangeTo)))) then
-              let acts : List Act := acts ++ [.finished]
+            if (i.stopped = true) then
               acts
             else
-              let acts : List Act := acts ++ [.requeue]
-              acts
+              if ((i.atEnd = true) ∨ (((i.rangeTo ≠ (-(1 : Int))) ∧ (i.pos > i.rangeTo)))) then
+                let acts : List Act := acts ++ [.finished]
+                acts
+              else
+                let acts : List Act := acts ++ [.requeue]
+                acts
 
 end QhttpGen.Copier
